@@ -517,7 +517,8 @@ Lemma scan_group_frame (P : gresult -> Prop) e o mn mx st a all_nodes all_pods :
   let us := pods_usage pods in
   let cap := nodes_capacity (c_untainted cls) pods in
   (fst lkr = true \/ (nodes = [] /\ pods = []) \/ zlen nodes < mn \/ mx < zlen nodes \/
-   calc_percent (r_cpu (u_total us)) (1000 * r_mem (u_total us)) (r_cpu (k_total cap)) (1000 * r_mem (k_total cap)) (zlen (c_untainted cls)) = PctErr ->
+   (mn <= zlen (c_untainted cls) /\
+    calc_percent (r_cpu (u_total us)) (1000 * r_mem (u_total us)) (r_cpu (k_total cap)) (1000 * r_mem (k_total cap)) (zlen (c_untainted cls)) = PctErr) ->
    forall tags out ret st', out = OutOk \/ out = OutErr -> P (mk tags [] out ret st' a)) ->
   (fst lkr = false -> zlen (c_untainted cls) < mn -> mn <= zlen nodes <= mx ->
    forall tags, let r := scale_up e o mx dry st2 a (c_tainted cls) (mn - zlen (c_untainted cls)) in
@@ -544,7 +545,7 @@ Proof.
   destruct (zlen (c_untainted cls) <? mn) eqn:E3.
   { apply Z.ltb_lt in E3. apply Hb; auto. }
   apply Z.ltb_ge in E3.
-  destruct (calc_percent _ _ _ _ _) as [cpuP memP|] eqn:Ep; [|apply Hq; [right; right; right; right; reflexivity | right; reflexivity]].
+  destruct (calc_percent _ _ _ _ _) as [cpuP memP|] eqn:Ep; [|apply Hq; [right; right; right; right; split; [exact E3 | reflexivity] | right; reflexivity]].
   destruct (Hd eq_refl E3 (conj E1 E2) Hnonempty cpuP memP eq_refl) as [Hd1 Hd2].
   destruct (decide _ _ _ _ _ _ _) as [d0|d] eqn:Edec; [apply Hd2 | apply Hd1]; reflexivity.
 Qed.
@@ -755,7 +756,8 @@ Lemma scan_of_frame (P : gresult -> Prop) now gdry api g a nodes pods x : x = ct
   let cpuReq := r_cpu (u_total (usage_of x)) in
   let memReq := 1000 * r_mem (u_total (usage_of x)) in
   let lag := liftA (registration_lag_calls (x_env x) st2 (x_nodes x)) in
-  (in_cooldown x = true \/ (x_nodes x = [] /\ x_pods x = []) \/ zlen (x_nodes x) < x_min x \/ x_max x < zlen (x_nodes x) \/ percents x = PctErr ->
+  (in_cooldown x = true \/ (x_nodes x = [] /\ x_pods x = []) \/ zlen (x_nodes x) < x_min x \/ x_max x < zlen (x_nodes x) \/
+   (x_min x <= zlen (c_untainted (x_cls x)) /\ percents x = PctErr) ->
    forall tags out ret st', out = OutOk \/ out = OutErr -> P (mk tags [] out ret st' a)) ->
   (in_cooldown x = false -> zlen unt < x_min x -> x_min x <= zlen (x_nodes x) <= x_max x ->
    forall tags, let r := scale_up (x_env x) (x_opts x) (x_max x) (x_dry x) st2 a (c_tainted (x_cls x)) (x_min x - zlen unt) in
@@ -788,7 +790,7 @@ Proof.
   - (* quiet exits: the band is BNone *)
     intros Hr tags out ret st' _. unfold check_C06_group.
     assert (Eb : band_of x = BNone).
-    { unfold band_of. destruct Hr as [Hr|[[Hr1 Hr2]|[Hr|[Hr|Hr]]]].
+    { unfold band_of. destruct Hr as [Hr|[[Hr1 Hr2]|[Hr|[Hr|[_ Hr]]]]].
       - rewrite Hr. reflexivity.
       - destruct (in_cooldown x); [reflexivity|]. rewrite Hr1, Hr2. reflexivity.
       - destruct (in_cooldown x); [reflexivity|]. destruct (match x_nodes x, x_pods x with [], [] => true | _, _ => false end); [reflexivity|].
